@@ -319,6 +319,25 @@ def run(ctx):
     for (c, e), a in zip(cexp, common.oracle_parallel(creq, chunk=10) if creq else []):
         if (a.split(' ')[0] != e.split(' ')[0]) or (e.startswith('ERR') and a != e) or (e.startswith('OK') and a != e):
             corr.append({'case': descr(c), 'impl': e[:120], 'model': a[:120]})
+    # ---- 3c. spellings of an encoding name: with eci=True a byte segment in an alias of ISO 8859-1 ('latin1', 'l1', ...) is written with
+    #          an ECI header like any other named encoding; whatever the size estimate assumes, the result must be a complete symbol or
+    #          a refusal - never a symbol with the content cut (lengths on both sides of the capacity boundaries of versions 1 and 2)
+    alias_cases = []
+    for alias in ('latin1', 'ISO-8859-1', 'l1', 'iso8859-1', 'L1', 'cp819', 'iso-8859-1', 'utf-8', 'UTF8', 'ascii', 'us-ascii', 'Shift_JIS', 'sjis'):
+        for n_ in (6, 7, 8, 10, 11, 12, 13, 14, 15, 16, 17, 18, 25, 26, 27, 30, 31, 32):
+            for kw in ({'version': 1, 'error': 'L'}, {'micro': False}, {'version': 2, 'error': 'L', 'boost_error': False}, {'micro': False, 'error': 'H'}):
+                alias_cases.append(dict(content='a' * n_, encoding=alias, eci=True, mask=0, **kw))
+    sw = sweep.Sweep(alias_cases, want=('decode',)).run()
+    for r_ in sw.rows:
+        n_cases += 1
+        if r_['code'] is not None:
+            msg = sweep.check_c01(r_['case'], r_['code'], r_.get('dec'))
+            if msg:
+                failures.append({'input': {'call': 'make', 'args': descr(r_['case'])}, 'observed': msg, 'expected': 'a symbol carrying the whole content, or DataOverflowError'})
+        elif r_['impl'].startswith('ERR') and r_['impl'][4:] not in ALLOWED:
+            failures.append({'input': {'call': 'make', 'args': descr(r_['case'])}, 'observed': r_['impl'], 'expected': 'a symbol or ValueError / LookupError'})
+    for d_ in sw.corr[:3]:
+        corr.append(d_)
     # ---- 4. serializer arguments
     q = segno.make('SERIALIZER', error='M')
     kinds = ['svg', 'png', 'eps', 'pdf', 'txt', 'pbm', 'pam', 'ppm', 'xpm', 'xbm', 'tex', 'ans']
